@@ -3,6 +3,7 @@
 SPECIFICATION Spec
 CONSTANTS
   IfaceDeep = TRUE
+  EmptyDeep = TRUE
   ExactSize = FALSE
   RedactOnCopy = TRUE
   MaxMut = 0
